@@ -6,6 +6,7 @@ import Logrange.Model.KV
 `Kvstring.RemoveCurlyBraces` is generated from the Go source; `KV.removeCurlyBraces` is the model the C08/C13
 properties are stated over. The translated function never panics and never runs out of fuel.
 -/
+set_option linter.unusedSimpArgs false
 namespace Logrange.Proofs.TrKvBraces
 open Go Go.Sem Logrange Logrange.Translated
 
@@ -47,6 +48,13 @@ theorem trailScan_suffix : ∀ (l : Bytes) (c : Int), ∃ pre, l = pre ++ (KV.tr
 
 /-! ## first loop -/
 
+/-- a byte that equals `a` does not equal a different `b` (used to give every byte test of a loop body a value, whatever
+order the source tests them in) -/
+theorem beq_other {x a b : UInt8} (h : (x == a) = true) (hab : a ≠ b) : (x == b) = false := by
+  have : x = a := by simpa using h
+  subst this
+  simpa using hab
+
 theorem loop1_eq (str : Bytes) : ∀ (fuel i c : Nat), i ≤ str.length → str.length - i < fuel →
     Kvstring.RemoveCurlyBraces_loop1 str fuel (i : Int) (c : Int) =
       Kvstring.RemoveCurlyBraces_after1 str
@@ -68,17 +76,20 @@ theorem loop1_eq (str : Bytes) : ∀ (fuel i c : Nat), i ≤ str.length → str.
       simp only [hg, decide_true, if_true, index_ok str i hlt, Go.Sem.bind]
       by_cases h1 : (str[i] == (32 : UInt8)) = true
       · have h1' : (str[i] == KV.SP) = true := h1
-        simp only [h1, h1', ↓reduceIte]
+        have h2f : (str[i] == (123 : UInt8)) = false := beq_other h1 (by decide)
+        simp only [h1, h1', h2f, bne, Bool.not_true, Bool.not_false, ↓reduceIte, Bool.false_eq_true]
         rw [e1]
         exact ih (i + 1) c (by omega) (by omega)
       · have h1' : ¬ (str[i] == KV.SP) = true := h1
+        have h1f : (str[i] == (32 : UInt8)) = false := by simpa using h1
         by_cases h2 : (str[i] == (123 : UInt8)) = true
         · have h2' : (str[i] == KV.LB) = true := h2
-          simp only [h1, h1', h2, h2', ↓reduceIte, Bool.false_eq_true]
+          simp only [h1f, h1', h2, h2', bne, Bool.not_true, Bool.not_false, ↓reduceIte, Bool.false_eq_true]
           rw [e1, e2]
           exact ih (i + 1) (c + 1) (by omega) (by omega)
         · have h2' : ¬ (str[i] == KV.LB) = true := h2
-          simp only [h1, h1', h2, h2', ↓reduceIte, Bool.false_eq_true]
+          have h2f : (str[i] == (123 : UInt8)) = false := by simpa using h2
+          simp only [h1f, h1', h2f, h2', bne, Bool.not_true, Bool.not_false, ↓reduceIte, Bool.false_eq_true]
           have : str.length - ((str.drop (i + 1)).length + 1) = i := by
             simp only [List.length_drop]; omega
           simp only [List.length_cons, this]
@@ -122,17 +133,20 @@ theorem loop2_eq (str : Bytes) (idx : Nat) : ∀ (m fuel : Nat) (cnt : Int),
     · simp only [hgt, h0, decide_true, Bool.and_self, if_true, index_ok str _ hlt, Go.Sem.bind]
       by_cases h1 : (str[idx + 1 + m] == (32 : UInt8)) = true
       · have h1' : (str[idx + 1 + m] == KV.SP) = true := h1
-        simp only [h1, h1', ↓reduceIte]
+        have h2f : (str[idx + 1 + m] == (125 : UInt8)) = false := beq_other h1 (by decide)
+        simp only [h1, h1', h2f, bne, Bool.not_true, Bool.not_false, ↓reduceIte, Bool.false_eq_true]
         rw [et']
         exact ih fuel cnt (by omega) (by omega)
       · have h1' : ¬ (str[idx + 1 + m] == KV.SP) = true := h1
+        have h1f : (str[idx + 1 + m] == (32 : UInt8)) = false := by simpa using h1
         by_cases h2 : (str[idx + 1 + m] == (125 : UInt8)) = true
         · have h2' : (str[idx + 1 + m] == KV.RB) = true := h2
-          simp only [h1, h1', h2, h2', ↓reduceIte, Bool.false_eq_true]
+          simp only [h1f, h1', h2, h2', bne, Bool.not_true, Bool.not_false, ↓reduceIte, Bool.false_eq_true]
           rw [et']
           exact ih fuel (cnt - 1) (by omega) (by omega)
         · have h2' : ¬ (str[idx + 1 + m] == KV.RB) = true := h2
-          simp only [h1, h1', h2, h2', ↓reduceIte, Bool.false_eq_true]
+          have h2f : (str[idx + 1 + m] == (125 : UInt8)) = false := by simpa using h2
+          simp only [h1f, h1', h2f, h2', bne, Bool.not_true, Bool.not_false, ↓reduceIte, Bool.false_eq_true]
           congr 1
           simp [List.length_take, List.length_drop]
           omega
